@@ -909,3 +909,172 @@ Proof.
   - rewrite <- d_get_im_get. match goal with |- context [if ?t then _ else _] => destruct t eqn:E end; [reflexivity|].
     rewrite (d_get_absent k [] (_fields g) E). reflexivity.
 Qed.
+
+(* ---------- the set-valued getters get_field_keys / get_tag_keys: sets of strings, compared after sorting ---------- *)
+Lemma nonempty_inter a b : nonempty_list (set_inter a b) = overlaps a b.
+Proof. unfold set_inter, overlaps. induction a as [|x a IH]; cbn [filter existsb nonempty_list]. - reflexivity. - destruct (mem x b); [reflexivity | exact IH]. Qed.
+Lemma set_add_In (x y : str) s : In y (set_add x s) <-> In y s \/ y = x.
+Proof.
+  unfold set_add. destruct (existsb (pyeq x) s) eqn:E.
+  - split; [intros H; left; exact H | intros [H|H]; [exact H | subst y]]. apply existsb_exists in E. destruct E as [z [Hz Hq]]. apply pyeq_str_eq in Hq. subst z. exact Hz.
+  - rewrite in_app_iff. cbn [In]. split; [intros [H|[H|[]]]; [left; exact H | right; symmetry; exact H] | intros [H|H]; [left; exact H | right; left; symmetry; exact H]].
+Qed.
+(* for k, v in d.items(): if c(v): rst.add(k) *)
+Lemma collect_loop {V} (c : V -> bool) : forall (d : list (str * V)) rst x,
+  In x (fold_left (fun rst (kb : str * V) => if c (snd kb) then set_add (fst kb) rst else rst) d rst) <->
+  In x rst \/ exists v, In (x, v) d /\ c v = true.
+Proof.
+  induction d as [|[k v] d IH]; intros rst x; cbn [fold_left fst snd]. - split; [intros H; left; exact H | intros [H|[v [[] _]]]; exact H].
+  - rewrite IH. destruct (c v) eqn:E.
+    + rewrite set_add_In. split.
+      * intros [[H|H]|[v' [H1 H2]]]; [left; exact H | subst x; right; exists v; split; [left; reflexivity | exact E] | right; exists v'; split; [right; exact H1 | exact H2]].
+      * intros [H|[v' [[H1|H1] H2]]]; [left; left; exact H | inversion H1; subst; left; right; reflexivity | right; exists v'; split; assumption].
+    + split.
+      * intros [H|[v' [H1 H2]]]; [left; exact H | right; exists v'; split; [right; exact H1 | exact H2]].
+      * intros [H|[v' [[H1|H1] H2]]]; [left; exact H | inversion H1; subst; congruence | right; exists v'; split; assumption].
+Qed.
+
+Theorem gen_get_field_keys_eq g m : sort_dedup (gen_get_field_keys g m) = ix_get_field_keys (abs g) m.
+Proof.
+  unfold gen_get_field_keys, ix_get_field_keys, abs, meas_items, im_keys. cbn [ix_meas ix_fields]. unfold abs_meas.
+  destruct m as [[|c s]|]; cbn [opt_truthy truthy negb opt_str]; try reflexivity.
+  rewrite <- d_has_im_has. match goal with |- context [negb ?t] => destruct t end; cbn [negb]; [| reflexivity].
+  rewrite <- d_get_positions. apply sort_dedup_ext. intros x.
+  match goal with |- In x (fold_left ?F _ _) <-> _ => rewrite (fold_left_ext F (fun rst (kb : str * list (nat * option num)) =>
+     if nonempty_list (set_inter (d_get [] (c :: s) (_measurements g)) (map (fun i => fst i) (snd kb))) then set_add (fst kb) rst else rst)) end; [| intros rst [fk items]; reflexivity].
+  rewrite (collect_loop (fun items : list (nat * option num) => nonempty_list (set_inter (d_get [] (c :: s) (_measurements g)) (map (fun i => fst i) items)))).
+  rewrite in_map_iff. split.
+  - intros [[]|[v [Hin Hc]]]. exists (x, v). split; [reflexivity|]. apply filter_In. split; [exact Hin|]. cbn [snd]. rewrite <- nonempty_inter. exact Hc.
+  - intros [[k v] [Hk Hf]]. cbn [fst] in Hk. subst k. apply filter_In in Hf. destruct Hf as [Hin Hc]. right. exists v. split; [exact Hin|]. cbn [snd] in Hc. rewrite <- nonempty_inter in Hc. exact Hc.
+Qed.
+
+(* the nested loop of get_tag_keys: for k, inner in tags.items(): for items in inner.values(): if c(items): rst.add(k) *)
+Lemma collect_inner (c : list nat -> bool) (k : str) : forall (l : list (list nat)) rst x,
+  In x (fold_left (fun rst items => if c items then set_add k rst else rst) l rst) <-> In x rst \/ (x = k /\ exists items, In items l /\ c items = true).
+Proof.
+  induction l as [|it l IH]; intros rst x; cbn [fold_left]. - split; [intros H; left; exact H | intros [H|[_ [i [[] _]]]]; exact H].
+  - rewrite IH. destruct (c it) eqn:E.
+    + rewrite set_add_In. split.
+      * intros [[H|H]|[H1 [i [H2 H3]]]]; [left; exact H | right; split; [exact H | exists it; split; [left; reflexivity | exact E]] | right; split; [exact H1 | exists i; split; [right; exact H2 | exact H3]]].
+      * intros [H|[H1 [i [[H2|H2] H3]]]]; [left; left; exact H | left; right; exact H1 | right; split; [exact H1 | exists i; split; assumption]].
+    + split.
+      * intros [H|[H1 [i [H2 H3]]]]; [left; exact H | right; split; [exact H1 | exists i; split; [right; exact H2 | exact H3]]].
+      * intros [H|[H1 [i [[H2|H2] H3]]]]; [left; exact H | subst; congruence | right; split; [exact H1 | exists i; split; assumption]].
+Qed.
+Lemma collect_outer (c : list nat -> bool) : forall (t : list (str * list (option str * list nat))) rst x,
+  In x (fold_left (fun rst (ki : str * list (option str * list nat)) => fold_left (fun rst items => if c items then set_add (fst ki) rst else rst) (map snd (snd ki)) rst) t rst) <->
+  In x rst \/ exists inner v items, In (x, inner) t /\ In (v, items) inner /\ c items = true.
+Proof.
+  induction t as [|[k inner] t IH]; intros rst x; cbn [fold_left fst snd]. - split; [intros H; left; exact H | intros [H|[i [v [it [[] _]]]]]; exact H].
+  - rewrite IH, collect_inner. split.
+    + intros [[H|[Hk [it [H1 H2]]]]|[i [v [it [H1 [H2 H3]]]]]].
+      * left. exact H.
+      * subst x. right. apply in_map_iff in H1. destruct H1 as [[v it'] [E H1]]. cbn [snd] in E. subst it'. exists inner, v, it. split; [left; reflexivity | split; assumption].
+      * right. exists i, v, it. split; [right; exact H1 | split; assumption].
+    + intros [H|[i [v [it [[H1|H1] [H2 H3]]]]]].
+      * left. left. exact H.
+      * inversion H1; subst. left. right. split; [reflexivity|]. exists it. split; [apply in_map_iff; exists (v, it); split; [reflexivity | exact H2] | exact H3].
+      * right. exists i, v, it. split; [exact H1 | split; assumption].
+Qed.
+
+(* no tag key with an empty inner dict (the source creates an inner dict only to put a value into it, and drops emptied ones): an invariant of
+   every compiled method, kept apart from gwf; it is what makes `set(self._tags.keys())` the set of keys that carry a value *)
+Definition tne (t : ntags) : Prop := forall k inner, In (k, inner) t -> inner <> [].
+Lemma d_set_nonempty {K V} {EK : PyEq K} (k : K) (v : V) d : d_set k v d <> [].
+Proof. destruct d as [|[k0 v0] d]; cbn [d_set]; [discriminate | destruct (pyeq k k0); discriminate]. Qed.
+Lemma tne_ntag_add idx t kv : NoDup (map fst t) -> tne t -> tne (ntag_add idx t kv).
+Proof.
+  destruct kv as [k v]. intros Hn Ht. rewrite ntag_add_canon. intros k' i' Hin. apply (d_set_In pyeq_str_eq t k _ k' i' Hn) in Hin. destruct Hin as [[_ Hin]|[_ Hin]].
+  - apply (Ht k' i' Hin). - subst i'. unfold uadd. destruct (negb (d_has v (d_get [] k t))); apply d_set_nonempty.
+Qed.
+Lemma tne_insert_tags g idx tags : nwf (_tags g) -> tne (_tags g) -> tne (_tags (gen__insert_tags g idx tags)).
+Proof.
+  rewrite gen_insert_tags_eq. destruct g as [n tg fl ms ts vl ps]. cbn [_tags set__tags]. revert tg. induction tags as [|kv r IH]; intros tg Hw Ht; cbn [fold_left]. - exact Ht.
+  - destruct kv as [k v]. apply IH. + apply (ntag_add_spec idx tg k v Hw). + apply tne_ntag_add; [apply Hw | exact Ht].
+Qed.
+Lemma tne_keys (t : ntags) : tne t -> forall k, In k (map fst t) <-> In k (map fst (map fst (flat_tags t))).
+Proof.
+  intros Ht k. split.
+  - intros H. apply in_map_fst_ex in H. destruct H as [inner Hin]. destruct inner as [|[v b] inner'] eqn:E; [exfalso; apply (Ht k [] Hin); reflexivity|].
+    apply in_map_iff. exists (k, v). split; [reflexivity|]. apply in_map_iff. exists ((k, v), unit_bucket b). split; [reflexivity|].
+    apply In_flat_tags. exists ((v, b) :: inner'). split; [exact Hin | left; reflexivity].
+  - intros H. apply in_map_iff in H. destruct H as [[k0 v] [E H]]. cbn [fst] in E. subst k0. apply (flat_tags_keys_In t k v H).
+Qed.
+
+Theorem gen_get_tag_keys_eq g m : tne (_tags g) -> sort_dedup (gen_get_tag_keys g m) = ix_get_tag_keys (abs g) m.
+Proof.
+  intros Htne. unfold gen_get_tag_keys, ix_get_tag_keys, abs, meas_items, im_keys. cbn [ix_meas ix_tags]. unfold abs_meas.
+  assert (Hall : sort_dedup (map fst (_tags g)) = sort_dedup (map fst (map fst (flat_tags (_tags g))))).
+  { apply sort_dedup_ext. apply tne_keys. exact Htne. }
+  destruct m as [[|c s]|]; cbn [opt_truthy truthy negb opt_str]; try exact Hall.
+  rewrite <- d_has_im_has. match goal with |- context [negb ?t] => destruct t end; cbn [negb]; [| reflexivity].
+  rewrite <- d_get_positions. apply sort_dedup_ext. intros x.
+  match goal with |- In x (fold_left ?F _ _) <-> _ => rewrite (fold_left_ext F (fun rst (ki : str * list (option str * list nat)) =>
+     fold_left (fun rst items => if nonempty_list (set_inter (d_get [] (c :: s) (_measurements g)) items) then set_add (fst ki) rst else rst) (map snd (snd ki)) rst)) end;
+    [| intros rst [k inner]; cbn [fst snd]; apply fold_left_ext; intros rst' items; reflexivity].
+  rewrite (collect_outer (fun items => nonempty_list (set_inter (d_get [] (c :: s) (_measurements g)) items))).
+  rewrite in_map_iff. split.
+  - intros [[]|[inner [v [it [H1 [H2 H3]]]]]]. exists ((x, v), unit_bucket it). split; [reflexivity|]. apply filter_In. split.
+    + apply In_flat_tags. exists inner. split; [exact H1|]. unfold ubuckets. apply in_map_iff. exists (v, it). split; [reflexivity | exact H2].
+    + cbn [snd]. unfold positions, unit_bucket. rewrite map_map. cbn [fst]. rewrite map_id. rewrite <- nonempty_inter. exact H3.
+  - intros [[[k v] b] [Hk Hf]]. cbn [fst] in Hk. subst k. apply filter_In in Hf. destruct Hf as [Hin Hc]. apply In_flat_tags in Hin. destruct Hin as [inner [H1 H2]].
+    unfold ubuckets in H2. apply in_map_iff in H2. destruct H2 as [[v' it] [E H2]]. cbn [fst snd] in E. injection E as Ev Eb. subst v' b. right. exists inner, v, it.
+    split; [exact H1 | split; [exact H2|]]. cbn [snd] in Hc. unfold positions, unit_bucket in Hc. rewrite map_map in Hc. cbn [fst] in Hc. rewrite map_id in Hc. rewrite <- nonempty_inter in Hc. exact Hc.
+Qed.
+
+(* tne through the other methods *)
+Lemma tne_nil : tne [].
+Proof. intros k i []. Qed.
+Lemma tne_removed r (t : ntags) : tne (filter (fun kv => nonempty_list (snd kv)) (map (fun kv => (fst kv, filt r (snd kv))) t)).
+Proof. intros k i Hin. apply filter_In in Hin. destruct Hin as [_ Hne]. cbn [snd] in Hne. intro E. subst i. discriminate. Qed.
+Lemma tne_renumbered h (t : ntags) : tne t -> tne (map_vals (map_vals h) t).
+Proof.
+  intros Ht k i Hin. apply in_map_iff in Hin. destruct Hin as [[k0 i0] [E Hin]]. cbn [fst snd] in E. injection E as Ek Ei. subst k i.
+  intro Hc. apply map_eq_nil in Hc. apply (Ht k0 i0 Hin Hc).
+Qed.
+Theorem tne_reset g : tne (_tags (gen__reset g)).  Proof. apply tne_nil. Qed.
+Theorem tne_invalidate g : tne (_tags (gen_invalidate g)).  Proof. apply tne_nil. Qed.
+Theorem tne_init g v : tne (_tags (gen___init__ g v)).  Proof. apply tne_nil. Qed.
+Theorem tne_insert_one g p : gwf g -> tne (_tags g) -> tne (_tags (gen_insert g [p])).
+Proof.
+  intros Hg Ht. unfold gen_insert. cbn [length seq combine fold_left]. rewrite gen_insert_time_eq, gen_insert_fields_eq, gen_insert_measurements_eq.
+  match goal with |- tne (_tags (set__measurements (set__fields ?x _) _)) => change (tne (_tags x)) end.
+  apply tne_insert_tags; destruct g as [n tg fl ms ts vl ps]; [apply Hg | exact Ht].
+Qed.
+Theorem tne_remove g r : gwf g -> tne (_tags (gen_remove g r)).
+Proof.
+  intros [Hw [Hf Hm]]. unfold gen_remove. rewrite gen_remove_timestamps_eq. cbv zeta.
+  set (g1 := set__storage_pos_sorted_by_ts _ _). rewrite (gen_remove_measurements_eq g1 r) by (destruct g; exact Hm).
+  set (g2 := set__measurements _ _). rewrite (gen_remove_tags_eq g2 r) by (destruct g; exact Hw).
+  set (g3 := set__tags _ _). rewrite (gen_remove_fields_eq g3 r) by (destruct g; exact Hf).
+  destruct g as [n tg fl ms ts vl ps]. subst g3 g2 g1. cbn. apply tne_removed.
+Qed.
+Theorem tne_update g u : gwf g -> tne (_tags g) -> tne (_tags (gen_update g u)).
+Proof.
+  intros [Hw [Hf Hm]] Ht. unfold gen_update. rewrite gen_update_timestamps_eq.
+  set (g1 := set__storage_pos_sorted_by_ts _ _). rewrite (gen_update_measurements_eq g1 u) by (destruct g; exact Hm).
+  set (g2 := set__measurements _ _). rewrite (gen_update_tags_eq g2 u) by (destruct g; exact Hw).
+  set (g3 := set__tags _ _). rewrite (gen_update_fields_eq g3 u) by (destruct g; exact Hf).
+  destruct g as [n tg fl ms ts vl ps]. subst g3 g2 g1. cbn. apply tne_renumbered. exact Ht.
+Qed.
+Lemma tne_fold idx tags : forall tg, nwf tg -> tne tg -> nwf (fold_left (ntag_add idx) tags tg) /\ tne (fold_left (ntag_add idx) tags tg).
+Proof.
+  induction tags as [|[k v] r IH]; intros tg Hw Ht; cbn [fold_left]. - split; assumption.
+  - apply IH. + apply (ntag_add_spec idx tg k v Hw). + apply tne_ntag_add; [apply Hw | exact Ht].
+Qed.
+Theorem tne_build g pts : tne (_tags (gen_build g pts)).
+Proof.
+  unfold gen_build. cbv zeta.
+  match goal with |- context [fold_left ?F ?L (gen__reset g, [])] => assert (G : forall l g0 buf, gwf g0 -> tne (_tags g0) ->
+     gwf (fst (fold_left F l (g0, buf))) /\ tne (_tags (fst (fold_left F l (g0, buf))))) end.
+  { clear. induction l as [|[idx p] l IH]; intros g0 buf Hg Ht; cbn [fold_left]. - split; assumption.
+    - apply IH.
+      + rewrite gen_insert_fields_eq, gen_insert_tags_eq, gen_insert_measurements_eq. destruct g0 as [n tg fl ms ts vl ps]. destruct Hg as [Hw [Hf Hm]].
+        cbn [_num_items _tags _fields _measurements _timestamps _valid _storage_pos_sorted_by_ts set__tags set__fields set__measurements set__num_items] in *.
+        split; [apply (tne_fold idx (p_tags p) tg Hw Ht) | split; [apply add_fields_NoDup; exact Hf | apply (uadd_NoDup pyeq_str_eq); exact Hm]].
+      + rewrite gen_insert_fields_eq, gen_insert_tags_eq, gen_insert_measurements_eq. destruct g0 as [n tg fl ms ts vl ps]. destruct Hg as [Hw _].
+        cbn [_num_items _tags _fields _measurements _timestamps _valid _storage_pos_sorted_by_ts set__tags set__fields set__measurements set__num_items] in *.
+        apply (tne_fold idx (p_tags p) tg Hw Ht). }
+  destruct (G (combine (seq 0 (length pts)) pts) (gen__reset g) [] (gwf_reset g) (tne_reset g)) as [_ Ht].
+  destruct (fold_left _ _ _) as [g' buf']. cbn [fst] in Ht. destruct g'. exact Ht.
+Qed.
